@@ -8,13 +8,16 @@ package tsdb
 //@ # seq[leader] = last applied (possibly unflushed) sequence, persistSeq[leader] = last durably flushed sequence
 //@ func dataFamily.ValidateSequence
 //@   prop C07
+//@   ghost_assign f.entryHalfApplied = f.entryHalfApplied || result
 //@   requires f.seq != nil
+//@   modifies f.entryHalfApplied
 //@   ensures[only_sequences_above_the_applied_one_are_valid] result == (!has(f.seq, leader) || seq > f.seq[leader].val)
 //@ end
 //@ func dataFamily.CommitSequence
 //@   prop C07
+//@   ghost_assign f.entryHalfApplied = false
 //@   requires f.seq != nil
-//@   modifies f.seq[*]
+//@   modifies f.seq[*], f.entryHalfApplied
 //@   ensures[applied_sequence_recorded] has(f.seq, leader) && f.seq[leader].val == seq
 //@   ensures[other_leaders_untouched] all(l, "int32", l != leader ==> (has(f.seq, l) == old(has(f.seq, l)) && f.seq[l] == old(f.seq[l])))
 //@ end
@@ -126,11 +129,25 @@ package tsdb
 //@   modifies *
 //@   ensures f.persistSeq == old(f.persistSeq) && f.seq == old(f.seq)
 //@ end
+//@ # Applying a log entry is three calls of the replicator: ValidateSequence, WriteRows, CommitSequence. Between the first
+//@ # and the last the entry is HALF APPLIED: (some of) its rows are in the mutable memory database, its sequence is not yet
+//@ # recorded. A flush that freezes the memory database at such a moment stores the entry's rows with a sequence BELOW the
+//@ # entry: after a crash the entry is replayed on top of its own flushed rows ("never replays a persisted one").
+//@ # ghost: entryHalfApplied = an entry has been validated and not yet committed (meaning given by the two contracts above:
+//@ # it is set by a successful ValidateSequence and cleared by CommitSequence; one replicator per family assumed for the
+//@ # clearing). The clause below holds only if Flush excludes that moment - it does not: OPEN KNOWN FINDING.
+//@ ghost field dataFamily.entryHalfApplied bool
+//@ ghost field dataFamily.frozeWhileHalfApplied bool
+//@ stable dataFamily.entryHalfApplied
+//@ stable dataFamily.frozeWhileHalfApplied
 //@ func dataFamily.Flush
 //@   prop C07
+//@   ghost_entry f.frozeWhileHalfApplied = false
+//@   ghost_after MemoryDatabase.MarkReadOnly f.frozeWhileHalfApplied = f.entryHalfApplied
 //@   requires f.seq != nil && f.persistSeq != nil && f.logger != nil && !locked(f.mutex)
 //@   modifies *
 //@   ensures[the_family_lock_is_released] !locked(f.mutex)
+//@   ensures[the_memory_database_is_not_frozen_while_a_log_entry_is_half_applied] !f.frozeWhileHalfApplied
 //@   loop 1 invariant locked(f.mutex) && f.persistSeq != nil && f.seq != nil
 //@   loop 2 invariant locked(f.mutex) && f.persistSeq != nil
 //@ end
